@@ -230,6 +230,22 @@ fn space(sink: &mut Sink, rng: &mut Rng, thorough: bool) {
         }
       }
     }
+    // hole filling against the model (`Graph.fillHoles`): the MOC plus every component of its complement (edge-or-vertex
+    // adjacency) except the 1 + n largest; skipped when two components of the same size sit on both sides of the cut
+    // (which one is kept then depends on the discovery order, which the definition does not fix)
+    {
+      let comps = components(depth, &compl, true);
+      let mut sizes: Vec<usize> = comps.iter().map(|c| c.len()).collect();
+      sizes.sort_unstable_by(|a, b| b.cmp(a));
+      for n in [0usize, 1] {
+        let k = 1 + n;
+        let tie = k < sizes.len() && sizes[k - 1] == sizes[k];
+        if tie { sink.count("space-op:fill_holes-tie-skipped"); continue; }
+        let got = std::panic::catch_unwind(AssertUnwindSafe(|| flat_cells(&m.fill_holes(if n == 0 { None } else { Some(n) }))));
+        let ans = match got { Ok(g) => cells_txt(&g), Err(_) => panic_answer() };
+        sink.emit(&format!("sp_fill {} {} {}", depth, n, cells_txt(&s)), &ans, !s.is_empty());
+      }
+    }
     // hole filling: superset that only adds whole connected components of the complement
     let got = std::panic::catch_unwind(AssertUnwindSafe(|| flat_cells(&m.fill_holes(None))));
     sink.count("space-op:fill_holes");
